@@ -2513,7 +2513,8 @@ def lgdt(info, a):
     return e
 
 def bittest_get(a, b):
-    if isinstance(a, ExprId):
+    if not isinstance(a, ExprMem):
+        # register operand: a 32-bit ExprId or the 16-bit slice of one
         off_bit = ExprOp('&', b, ExprInt_from(a, a.get_size() - 1))
         d = a
         #d = ExprOp('>>', a, off_bit)
